@@ -64,6 +64,20 @@ class Names:
                 self.used.add(s)
                 self.local.add(s)
                 return s
+        if r.random() < 0.08:
+            # a name that differs from an earlier one only in the case of its letters (distinct names in SMI), or a type
+            # name spelled like an SMI base type in another case
+            if upper:
+                cands = [c for c in ('IPAddress', 'TimeTICKS', 'CounteR32', 'UnSigned32', 'OpaquE', 'GauGe32', 'InteGer32', 'Counter64x') if c not in self.used]
+            else:
+                cands = sorted(c[0] + c[1:].swapcase() for c in self.used if c[0].islower() and '-' not in c and c[1:].swapcase() != c[1:]
+                               and (c[0] + c[1:].swapcase()) not in self.used)
+            cands = [c for c in cands if c not in RESERVED and c not in PY_KEYWORDS and c not in AVOID]
+            if cands:
+                s = r.choice(cands)
+                self.used.add(s)
+                self.local.add(s)
+                return s
         while True:
             stem = r.choice(['acme', 'widget', 'if', 'sys', 'node', 'x', 'foo', 'barBaz', 'q9', 'tempSensor', 'a'])
             s = stem + (r.choice(['', 'Entry', 'Table', 'Index', 'Count', 'State', 'Name']) if r.random() < 0.5 else '')
@@ -266,10 +280,12 @@ class SetGen:
                 elif r < 0.42:
                     # type declaration or textual convention, possibly derived from an earlier one
                     vt = self.visible_types(mname)
-                    if self.pysnmp_safe:
-                        vt = [t for t in vt if not t.get('tc')]
+                    tc = rng.random() < 0.5
+                    if self.pysnmp_safe and tc:
+                        # the recorded template defect: a TEXTUAL-CONVENTION based on one (directly or through plain types)
+                        vt = [t for t in vt if not t.get('tcish')]
                     syn = gen_syntax(rng, vt)
-                    while self.pysnmp_safe and syn['base'] == 'DisplayString':
+                    while self.pysnmp_safe and tc and syn['base'] == 'DisplayString':
                         syn = gen_syntax(rng, vt)
                     if syn['base'] in SMI_IMPORTABLE:
                         imp('SNMPv2-SMI', syn['base'])
@@ -278,7 +294,6 @@ class SetGen:
                     name = self.names.fresh(upper=True, hyphen_ok=False)
                     if syn.get('user') and syn['base'] == name:
                         continue
-                    tc = rng.random() < 0.5
                     if tc:
                         imp('SNMPv2-TC', 'TEXTUAL-CONVENTION')
                     d = {'kind': 'textualConvention' if tc else 'typeDecl', 'name': name, 'syntax': syn,
@@ -287,7 +302,9 @@ class SetGen:
                     self.use_type(mname, imp, syn)
                     resolved = syn.get('resolved') if syn.get('user') else syn
                     add(d, None, syntax=syn, chain_base=resolved)
+                    based_on = [t for t in vt if t['name'] == syn['base'] and t.get('module') == syn.get('tmodule')] if syn.get('user') else []
                     ent = {'name': name, 'root': syn.get('kind'), 'module': mname, 'resolved': resolved, 'tc': tc,
+                           'tcish': tc or syn['base'] == 'DisplayString' or any(t.get('tcish') for t in based_on),
                            'parent': syn['base'] if syn.get('user') and syn.get('tmodule') in (None, mname) else None}
                     types.append(ent)
                     self.all_types.append(ent)
@@ -307,6 +324,8 @@ class SetGen:
                 self.add_clash(mname, m, add, imp, pick_parent)
             if self.families and rng.random() < 0.4:
                 self.add_family(mname, m, add, imp, pick_parent)
+            if self.exotic_defvals and rng.random() < 0.5:
+                self.add_enum_refinement(mname, m, add, imp, pick_parent)
             rng.shuffle(m['decls']) if rng.random() < 0.7 else None
         return self
 
@@ -349,7 +368,29 @@ class SetGen:
                 nodetype='scalar', syntax=syn, chain_base=resolved)
 
     families = True
-    pysnmp_safe = False      # avoid the two recorded pysnmp-template defects (a type deriving from a TEXTUAL-CONVENTION)
+    pysnmp_safe = False      # avoid the recorded pysnmp-template defect (a TEXTUAL-CONVENTION based on a TEXTUAL-CONVENTION)
+
+    def add_enum_refinement(self, mname, m, add, imp, pick_parent):
+        """E ::= INTEGER { all labels }, E2 ::= E { some of them }, and an object of type E2 whose DEFVAL is one of those:
+        E2 has exactly the labels written for it, wherever the object stands relative to the types"""
+        rng = self.rng
+        e1 = self.names.fresh(upper=True, hyphen_ok=False)
+        e2 = self.names.fresh(upper=True, hyphen_ok=False)
+        labels = [('lab%s%d' % (rng.choice('abc'), i), v) for i, v in enumerate(sorted(rng.sample(range(0, 30), rng.randint(3, 5))))]
+        sub = sorted(rng.sample(labels, rng.randint(1, len(labels) - 1)), key=lambda x: x[1])
+        full = {'base': 'INTEGER', 'kind': 'int', 'enum': labels}
+        add({'kind': 'typeDecl', 'name': e1, 'syntax': full, 'displayHint': None, 'status': 'current', 'description': self.text(),
+             'reference': None}, None, syntax=full, chain_base=full)
+        syn2 = {'base': e1, 'kind': 'int', 'user': True, 'enum': sub}
+        res2 = {'base': 'INTEGER', 'kind': 'int', 'enum': sub}
+        add({'kind': 'typeDecl', 'name': e2, 'syntax': syn2, 'displayHint': None, 'status': 'current', 'description': self.text(),
+             'reference': None}, None, syntax=syn2, chain_base=res2)
+        parts, oid = pick_parent()
+        imp('SNMPv2-SMI', 'OBJECT-TYPE')
+        syn = {'base': e2, 'kind': 'int', 'user': True}
+        add({'kind': 'objectType', 'name': self.names.fresh(), 'syntax': syn, 'units': None, 'access': 'read-only',
+             'status': 'current', 'description': self.text(), 'reference': None, 'oidparts': parts,
+             'defval': ('enum', rng.choice(sub)[0])}, oid, nodetype='scalar', syntax=syn, chain_base=res2)
 
     def add_family(self, mname, m, add, imp, pick_parent):
         """T1 ::= Tb, …, Tk ::= Tb declared before Tb ::= <base>: several forward references that become resolvable
@@ -488,7 +529,9 @@ class SetGen:
             if self.exotic_defvals:
                 # literals that are not a whole number of octets, with leading zeros: every digit is part of the value
                 opts += [('str', ''), ('hexstr', '0ABCD'), ('hexstr', '000'), ('hexstr', '0'), ('binstr', '000000001'), ('binstr', '000011110000'),
-                         ('binstr', '0'), ('hexstr', '00000'), ('binstr', '0000')]
+                         ('binstr', '0'), ('hexstr', '00000'), ('binstr', '0000'),
+                         # blanks are characters of a string value like any other
+                         ('str', ' padded '), ('str', ' '), ('str', 'trailing  '), ('str', '  leading')]
             return rng.choice(opts)
         return None
 
@@ -567,6 +610,23 @@ class SetGen:
         add({'kind': 'notificationType', 'name': self.names.fresh(), 'objects': objs, 'status': 'current',
              'description': self.text(), 'reference': None, 'oidparts': parts}, oid, objects=objs)
 
+    def group_name(self, mname):
+        """sometimes the name of a group another module defines, or that name in another case (groups of several
+        modules meet in compliance statements)"""
+        rng, names = self.rng, self.names
+        if rng.random() < 0.3:
+            theirs = sorted({k[1] for k, t in self.truth.items() if t['kind'] in ('objectGroup', 'notificationGroup') and k[0] != mname})
+            cands = theirs + [c[0] + c[1:].swapcase() for c in theirs if '-' not in c and c[1:].swapcase() != c[1:]
+                              and (c[0] + c[1:].swapcase()) not in names.used]
+            cands = [c for c in cands if c not in names.local and c not in names.imported and c not in RESERVED
+                     and c not in PY_KEYWORDS and c not in AVOID]
+            if cands:
+                s = rng.choice(cands)
+                names.used.add(s)
+                names.local.add(s)
+                return s
+        return names.fresh()
+
     def group(self, mname, add, imp, pick_parent, nodes):
         rng = self.rng
         if rng.random() < 0.6:
@@ -575,7 +635,7 @@ class SetGen:
                 return
             parts, oid = pick_parent()
             imp('SNMPv2-CONF', 'OBJECT-GROUP')
-            add({'kind': 'objectGroup', 'name': self.names.fresh(), 'objects': objs, 'status': 'current',
+            add({'kind': 'objectGroup', 'name': self.group_name(mname), 'objects': objs, 'status': 'current',
                  'description': self.text(), 'reference': None, 'oidparts': parts}, oid, objects=objs)
         else:
             objs = self.some_objects(mname, imp, ('notificationType',), rng.randint(1, 3))
@@ -583,22 +643,37 @@ class SetGen:
                 return
             parts, oid = pick_parent()
             imp('SNMPv2-CONF', 'NOTIFICATION-GROUP')
-            add({'kind': 'notificationGroup', 'name': self.names.fresh(), 'objects': objs, 'status': 'current',
+            add({'kind': 'notificationGroup', 'name': self.group_name(mname), 'objects': objs, 'status': 'current',
                  'description': self.text(), 'reference': None, 'oidparts': parts}, oid, objects=objs)
 
     def compliance(self, mname, add, imp, pick_parent, nodes):
         rng = self.rng
+        # a MODULE clause names the home of its groups, so they need no IMPORTS entry (RFC 2580, 5.4.1): half of the
+        # statements do without, and may then name same-named groups of different modules
+        plain = rng.random() < 0.5
         groups = [(k, t) for k, t in self.truth.items() if t['kind'] in ('objectGroup', 'notificationGroup')
-                  and self.importable(mname, k[0], k[1])]
+                  and (plain or self.importable(mname, k[0], k[1]))]
         if not groups:
             return
         parts, oid = pick_parent()
         imp('SNMPv2-CONF', 'MODULE-COMPLIANCE')
-        mand = rng.sample(groups, min(len(groups), rng.choice([0, 1, 1, 2, 2])))    # no MANDATORY-GROUPS at all is legal
+        if plain and rng.random() < 0.5:
+            # prefer groups whose names meet (equal, or equal but for the case of letters)
+            low = {}
+            for g in groups:
+                low.setdefault(g[0][1].lower(), []).append(g)
+            twins = [g for gs in low.values() if len(gs) > 1 for g in gs]
+            groups = twins + [g for g in groups if g not in twins]
+            mand = groups[:rng.choice([1, 2, 3])]
+        else:
+            mand = rng.sample(groups, min(len(groups), rng.choice([0, 1, 1, 2, 2])))    # no MANDATORY-GROUPS at all is legal
         cond = [g for g in groups if g not in mand][:2]
         seen = set()
         keep = []
         for (pm, pn), t in mand + cond:
+            if plain:
+                keep.append(((pm, pn), t))
+                continue
             if not self.importable(mname, pm, pn) or pn in seen:
                 continue
             seen.add(pn)
